@@ -689,6 +689,35 @@ func (m *collection) appendChildLLSnapshot(dst *segmentStack,
 	return dst
 }
 
+// refreshChildLLSnapshots recursively replaces the lower level
+// snapshots of the child stacks of dst by the child snapshots of src.
+func (m *collection) refreshChildLLSnapshots(dst *segmentStack, src Snapshot) {
+	for cName, childStack := range dst.childSegStacks {
+		childCollection, exists := m.childCollections[cName]
+		if !exists || childCollection.incarNum != childStack.incarNum {
+			continue
+		}
+
+		var childSnap Snapshot
+		if src != nil {
+			childSnap, _ = src.ChildCollectionSnapshot(cName)
+			if incarNum, ok := snapshotIncarNum(childSnap); ok &&
+				incarNum != childCollection.incarNum {
+				childSnap.Close()
+				childSnap = nil
+			}
+		}
+
+		prevLowerLevelSnapshot := childStack.lowerLevelSnapshot
+		childStack.lowerLevelSnapshot = NewSnapshotWrapper(childSnap, nil)
+		if prevLowerLevelSnapshot != nil {
+			prevLowerLevelSnapshot.decRef()
+		}
+
+		childCollection.refreshChildLLSnapshots(childStack, childSnap)
+	}
+}
+
 // snapshotIncarNum returns the incarnation number of a child snapshot
 // provided by a moss lower level (a store footer or a segment stack).
 func snapshotIncarNum(s Snapshot) (uint64, bool) {
